@@ -174,7 +174,9 @@ where
         .map_err(M2Error::Io)?;
 
     // Read each element
-    let mut result = Vec::with_capacity(array.count as usize);
+    // The count comes from the file: cap the up-front reservation, the vector grows while
+    // elements actually parse
+    let mut result = Vec::with_capacity((array.count as usize).min(4096));
     for _ in 0..array.count {
         result.push(parse_fn(reader)?);
     }
@@ -198,9 +200,19 @@ pub fn read_raw_bytes<R: Read + Seek>(
         .map_err(M2Error::Io)?;
 
     // Read raw bytes
-    let total_bytes = array.count as usize * element_size;
-    let mut data = vec![0u8; total_bytes];
-    reader.read_exact(&mut data).map_err(M2Error::Io)?;
+    // The count comes from the file: read up to the declared size instead of allocating it up front
+    let total_bytes = (array.count as usize).saturating_mul(element_size);
+    let mut data = Vec::new();
+    reader
+        .by_ref()
+        .take(total_bytes as u64)
+        .read_to_end(&mut data)
+        .map_err(M2Error::Io)?;
+    if data.len() != total_bytes {
+        return Err(M2Error::Io(std::io::Error::from(
+            std::io::ErrorKind::UnexpectedEof,
+        )));
+    }
 
     Ok(data)
 }
@@ -320,8 +332,12 @@ impl FixedString {
 
     /// Parse a fixed-width string from a reader
     pub fn parse<R: Read + Seek>(reader: &mut R, len: usize) -> Result<Self> {
-        let mut data = vec![0u8; len];
-        reader.read_exact(&mut data)?;
+        // The length comes from the file: read up to it instead of allocating it up front
+        let mut data = Vec::new();
+        reader.by_ref().take(len as u64).read_to_end(&mut data)?;
+        if data.len() != len {
+            return Err(std::io::Error::from(std::io::ErrorKind::UnexpectedEof).into());
+        }
 
         // Find null terminator
         let null_pos = data.iter().position(|&b| b == 0).unwrap_or(len);
